@@ -112,7 +112,7 @@ def run_tlc(module, cfg, workers=4, env=None, timeout=600, simulate=None, depth=
     r.stdout = p.stdout
     r.rc = p.returncode
     shutil.rmtree(meta, ignore_errors=True)
-    pat = re.compile(r'^<<"([A-Z_]+)", "(.*)">>$')
+    pat = re.compile(r'^<<"([A-Z0-9_]+)", "(.*)">>$')
     for line in p.stdout.splitlines():
         m = pat.match(line)
         if m and m.group(1) in tags:
